@@ -68,6 +68,7 @@ type Run struct {
 	assumptions []string
 	extra       map[string]any
 	harnessErr  []string
+	classes     map[string]int
 }
 
 func NewRun(prop, tier, level string, seed int64) *Run {
@@ -126,7 +127,13 @@ func (r *Run) Report(f *Fail) (known bool) {
 		r.known[id]++
 		return true
 	}
-	if len(r.fails) < 50 {
+	// keep at most 3 witnesses per (scenario, api, shape) class
+	key := f.Scenario + "|" + f.API + "|" + f.Shape
+	if r.classes == nil {
+		r.classes = map[string]int{}
+	}
+	r.classes[key]++
+	if r.classes[key] <= 3 && len(r.fails) < 300 {
 		r.fails = append(r.fails, f)
 	}
 	return false
